@@ -98,6 +98,7 @@ func fieldsOf(t *Ty) []fld {
 
 type DocGen struct {
 	big        bool // "big data" document: thousands of elements in nums, hundreds in recs
+	medium     bool // with big: hundreds instead of thousands of elements
 	latePoison bool // one wrong-typed element near the end of each long array (a call aborted after a lot of progress)
 	r          *Rng
 	tag        string
@@ -262,6 +263,16 @@ func (g *DocGen) val(t *Ty, depth int) string {
 			case 's':
 				n = 70 + g.r.Intn(300)
 			}
+			if g.medium {
+				switch t.E.K {
+				case 'n':
+					n = 64 + g.r.Intn(240)
+				case 'r':
+					n = 64 + g.r.Intn(70)
+				case 's':
+					n = 64 + g.r.Intn(40)
+				}
+			}
 		}
 		if depth <= 1 && g.r.P(1, 12) {
 			n = 13 + g.r.Intn(20) // long arrays with many tied keys
@@ -349,8 +360,107 @@ func (g *DocGen) val(t *Ty, depth int) string {
 	return "null"
 }
 
+// Function families: several expressions that all go through the same
+// built-in function with different arguments, so that the clients of one run
+// (or the calls of one history) meet inside that function's own machinery
+// (a last-argument cache, a pooled scratch value, a lazily built table),
+// including calls that abort inside it.
+var FuncFamilies = []string{"replace", "split", "join", "pad", "zip", "group_by", "from_items", "merge", "sort_by", "find", "trim", "to_string", "contains", "map", "max_by", "sort", "slice", "let", "hash"}
+
+func GenFamilyExpr(r *Rng, fam string) *Expr {
+	cur := &Expr{K: KCur}
+	str := func() *Expr {
+		return pick(r, []*Expr{field("s"), field("tag"), {K: KIndex, C: []*Expr{field("strs")}, N: []int{r.Intn(3)}},
+			mk(KSub, &Expr{K: KIndex, C: []*Expr{field("recs")}, N: []int{r.Intn(3)}}, field("name")), strLit(r), field("n")})
+	}
+	arr := func() *Expr {
+		return pick(r, []*Expr{field("nums"), field("strs"), field("recs"), field("mixed"), field("nest"), lit(pick(r, arrNumLits)), lit(pick(r, arrStrLits)), field("nul"), field("omap")})
+	}
+	obj := func() *Expr {
+		return pick(r, []*Expr{field("omap"), field("smap"), field("rmap"), lit(pick(r, objNumLits)), mk(KSub, &Expr{K: KIndex, C: []*Expr{field("recs")}, N: []int{0}}, field("attrs")), field("nums")})
+	}
+	key := func() *Expr {
+		return ref(pick(r, []*Expr{field("id"), field("name"), field("grp"), cur, fn("length", cur), mk(KSub, field("pt"), field("x"))}))
+	}
+	var e *Expr
+	switch fam {
+	case "replace":
+		e = fn("replace", str(), strLit(r), strLit(r))
+		if r.P(1, 3) {
+			e.C = append(e.C, intLit(r))
+		}
+	case "split":
+		e = fn("split", str(), strLit(r))
+		if r.P(1, 3) {
+			e.C = append(e.C, intLit(r))
+		}
+	case "join":
+		e = fn("join", strLit(r), arr())
+	case "pad":
+		e = fn(pick(r, []string{"pad_left", "pad_right"}), str(), lit(pick(r, []string{"3", "8", "20", "70", "130"})))
+		if r.P(2, 3) {
+			e.C = append(e.C, &Expr{K: KStr, S: pick(r, []string{"*", "-", "é", " ", "0"})})
+		}
+	case "zip":
+		e = fn("zip", arr(), arr())
+		if r.P(1, 3) {
+			e.C = append(e.C, arr())
+		}
+	case "group_by":
+		e = fn("group_by", arr(), key())
+	case "from_items":
+		e = fn("from_items", pick(r, []*Expr{fn("items", obj()), arr(), fn("zip", fn("keys", obj()), fn("values", obj())), lit(`[["a",1],["b",2],["a",3]]`)}))
+	case "merge":
+		e = fn("merge", obj(), obj())
+		if r.P(1, 2) {
+			e.C = append(e.C, &Expr{K: KHash, Keys: []string{pick(r, mapKeys[:5])}, C: []*Expr{str()}})
+		}
+	case "sort_by":
+		e = fn("sort_by", arr(), key())
+	case "find":
+		e = fn(pick(r, []string{"find_first", "find_last"}), str(), strLit(r))
+		if r.P(1, 2) {
+			e.C = append(e.C, intLit(r))
+		}
+	case "trim":
+		e = fn(pick(r, []string{"trim", "trim_left", "trim_right"}), str())
+		if r.P(2, 3) {
+			e.C = append(e.C, strLit(r))
+		}
+	case "to_string":
+		e = fn("to_string", pick(r, []*Expr{obj(), arr(), str(), &Expr{K: KRoot}}))
+	case "contains":
+		e = fn("contains", pick(r, []*Expr{arr(), str()}), pick(r, []*Expr{strLit(r), numLit(r), field("n")}))
+	case "map":
+		e = fn("map", ref(pick(r, []*Expr{fn("abs", cur), field("id"), fn("to_string", cur), mkS(KBin, "*", cur, numLit(r))})), arr())
+	case "max_by":
+		e = fn(pick(r, []string{"max_by", "min_by"}), arr(), key())
+	case "sort":
+		e = fn(pick(r, []string{"sort", "reverse"}), arr())
+		if r.P(1, 2) {
+			// a filter or projection directly on the function result
+			e = &Expr{K: KFilter, C: []*Expr{e, mkS(KBin, pick(r, []string{">", "<", "!="}), cur, numLit(r)), nil}}
+		}
+	case "slice":
+		e = &Expr{K: KSlice, C: []*Expr{pick(r, []*Expr{arr(), str()})}, N: []int{r.Intn(4) - 1, r.Intn(8) - 1, pick(r, []int{1, 2, -1, 3})}, F: []bool{r.P(2, 3), r.P(2, 3), r.P(1, 2)}}
+	case "let":
+		e = &Expr{K: KLet, Keys: []string{"a", "b"}, C: []*Expr{str(), arr(), &Expr{K: KList, C: []*Expr{{K: KVar, S: "a"}, {K: KVar, S: pick(r, []string{"b", "a", "c"})}}}}}
+	default: // hash
+		e = &Expr{K: KHash, Keys: []string{"x", "y", pick(r, []string{"x", "z"})}, C: []*Expr{str(), arr(), obj()}}
+	}
+	return e
+}
+
 // GenBigDoc: a document whose arrays are beyond the size thresholds at which
 // implementations switch strategy (pooled buffers, chunking, parallelism).
+// GenMediumDoc: like GenBigDoc with 64-300 elements (cheap, still beyond the
+// usual "small input" thresholds).
+func GenMediumDoc(r *Rng, tag string) string {
+	g := &DocGen{r: r, tag: tag, poison: 0, spare: 20, big: true, medium: true}
+	g.latePoison = r.P(1, 4)
+	return g.val(tDoc, 0)
+}
+
 func GenBigDoc(r *Rng, tag string) string {
 	g := &DocGen{r: r, tag: tag, poison: 0, spare: 20, big: true}
 	g.latePoison = r.P(1, 3)
@@ -1134,6 +1244,15 @@ func (g *ExprGen) genArr(want, cur *Ty, d int) *Expr {
 		}
 	case 12:
 		return g.literal(want)
+	case 15, 16:
+		if el.K == 'n' || el.K == 's' {
+			// a filter directly on the result of a function that may hand back its
+			// argument (already sorted input, nothing to prune, ...)
+			src := pick(g.r, []*Expr{g.literal(want), g.leaf(want, cur)})
+			f := fn(pick(g.r, []string{"sort", "reverse", "to_array", "not_null"}), src)
+			pred := mkS(KBin, pick(g.r, []string{">", "<", "!=", "=="}), &Expr{K: KCur}, g.literal(el))
+			return &Expr{K: KFilter, C: []*Expr{f, pred, nil}}
+		}
 	}
 	return g.leaf(want, cur)
 }
